@@ -989,11 +989,15 @@ package gorm
 //@ # ---------- C08/C03: a tolerated parse error still leaves the schema parsed so far in the statement ----------
 //@ # With an explicit Table(...) an "unsupported data type" error of the model is ignored by the callers; the schema
 //@ # (and with it the soft-delete clauses) must be there all the same: the store is reached with an error too.
+//@ ghost parseErrTag
+//@ event call schema.ParseWithSpecialTableName
+//@   in gorm.(*Statement).ParseWithSpecialTableName
+//@   do parseErrTag = tagof(result1)
 //@ site schema-kept-with-a-tolerated-parse-error
 //@   match store Statement.Schema
 //@   in gorm.(*Statement).ParseWithSpecialTableName
 //@   min-sites 1
-//@   cover stored-when-the-parser-reports-an-error: err != nil [C08,C03]
+//@   cover stored-when-the-parser-reports-an-error: parseErrTag != 0 [C08,C03]
 
 //@ # ---------- C12: adding nothing removes nothing ----------
 //@ # Append on a has-one / belongs-to relation is Replace; Replace with no value is Clear. Append() with an empty list
